@@ -1248,6 +1248,21 @@ pub fn run_paths<C: OrdColl>(tr: &mut Trace, paths: &[(usize, Vec<POp>)], keys: 
         reload(&mut s, path, *cap);
         s.apply(&OOp::Clear, 0);
         s.apply(&OOp::Empty, 0);
+        // nothing a look-up leaves behind may survive a clear: look-ups of a key, clear, the same look-ups
+        for k in &stored {
+            reload(&mut s, path, *cap);
+            s.apply(&OOp::Get { k: *k }, 0);
+            s.apply(&OOp::Fil { p: *k }, 0);
+            s.apply(&OOp::FilBy { th: 2 * *k + 1 }, 0);
+            s.apply(&OOp::Clear, 0);
+            s.apply(&OOp::Get { k: *k }, 0);
+            s.apply(&OOp::Fil { p: *k }, 0);
+            s.apply(&OOp::FilBy { th: 2 * *k + 1 }, 0);
+            s.apply(&OOp::Empty, 0);
+            s.apply(&OOp::Ins { k: *k, v: k * 1000 + 35 }, 0);
+            s.apply(&OOp::Get { k: *k }, 0);
+            s.apply(&OOp::Fil { p: *k }, 0);
+        }
         // handles held across insertions (trees only): ascending and descending insertion orders
         if C::HAS_SNAP && !stored.is_empty() && !absent.is_empty() {
             for rev in [false, true] {
